@@ -66,11 +66,27 @@ func isRangeIndex(v ssa.Value) bool {
 // onlyLoopGuards: reaching block b implies nothing but loop continuation tests
 // (the block executes on every iteration of its enclosing loops).
 func onlyLoopGuards(b *ssa.BasicBlock) (bool, *Guard) {
-	for _, g := range guardsOf(b) {
+	gs := guardsOf(b) // innermost first
+	last := -1
+	for i, g := range gs {
+		if isLoopGuard(g) {
+			last = i
+		}
+	}
+	// guards beyond the outermost loop test were decided before the loop was entered: they
+	// do not select elements
+	for i, g := range gs {
+		if i >= last {
+			break
+		}
 		if !isLoopGuard(g) {
 			gg := g
 			return false, &gg
 		}
+	}
+	if last < 0 {
+		// not inside a loop at all
+		return len(gs) == 0, nil
 	}
 	return true, nil
 }
